@@ -15,7 +15,7 @@ import extract  # noqa: E402
 import facts as factsmod  # noqa: E402
 
 KNOWN_FILE = os.path.join(VERIF, "known_findings.json")
-EVIDENCE_DIR = os.path.join(VERIF, "evidence")
+EVIDENCE_DIR = os.environ.get("REPLICON_EVIDENCE_DIR") or os.path.join(VERIF, "evidence")
 
 
 class AnchorMissing(Exception):
@@ -84,6 +84,30 @@ def load_known():
     if not os.path.exists(KNOWN_FILE):
         return []
     return json.load(open(KNOWN_FILE))
+
+
+def run_rules(prop, facts_dir, config="default"):
+    """Runs the property's rules over the facts in `facts_dir`; returns (instances, internal_errors)."""
+    mod = importlib.import_module("rules." + prop)
+    F = factsmod.Facts(facts_dir)
+    ctx = Ctx(prop, F, config)
+    errs = []
+    for (rid, title, fn, floor, applies) in mod.RULES:
+        if applies and config not in applies:
+            continue
+        ctx.rule = rid
+        before = len(ctx.instances)
+        try:
+            fn(ctx)
+        except AnchorMissing as e:
+            ctx.bad("anchor", "", str(e), kind="anchor-missing")
+        except Exception:
+            errs.append("%s/%s: %s" % (rid, config, traceback.format_exc()))
+            continue
+        n = len(ctx.instances) - before
+        if n < floor:
+            ctx.bad("floor", "", "rule matched %d instance(s), fewer than the %d confirmed by hand" % (n, floor), kind="anchor-missing")
+    return ctx.instances, errs
 
 
 def run_property(prop, tier="quick", explain=None):
